@@ -177,9 +177,9 @@ def reshape (xs : List Nat) (n : Nat) : R (List Nat) :=
 
 /-- the items of `np.frombuffer(bs, dtype='<u{w}')` for a buffer whose length is a multiple of w -/
 def fromLE (w : Nat) (bs : List Nat) : List Nat :=
-  if _h : w = 0 ∨ bs.length < w then [] else ofLeBytes (bs.take w) :: fromLE w (bs.drop w)
+  if _h : w = 0 ∨ (bs.take w).length < w then [] else ofLeBytes (bs.take w) :: fromLE w (bs.drop w)
 termination_by bs.length
-decreasing_by simp only [List.length_drop]; omega
+decreasing_by simp only [List.length_take, List.length_drop] at *; omega
 
 /-- `np.frombuffer(bs, dtype)` for an item size of `w` bytes (`ValueError` when the buffer size is
     not a multiple of the item size) -/
@@ -454,30 +454,45 @@ def Packed.tobytes (t : Packed) : R (List Nat) :=
   | .error e => .error e
   | .ok _ => .ok t.raw
 
-/-- `Tensor.__init__` on an array with a non-native byte order (`_core.py` 517-531):
-    `DataType.from_numpy(value.dtype)` / `_check_numpy_representation_type` look the dtype up in
-    `_NP_TYPE_TO_DATA_TYPE`, whose keys are native-order dtypes, so the array is rejected with
-    `TypeError` and no tensor exists.  (Were such an array ever accepted, `tobytes()` would still
-    have to be `arrayBytes` -- the little-endian items -- whatever the memory order: that is what
-    the oracle of the check demands.) -/
-def arrayBECtor (_d : DType) : R Unit := .error "TypeError"
+/-- byte swap: every `w`-byte item of a buffer reversed -/
+def swapItems (w : Nat) (bs : List Nat) : List Nat :=
+  if _h : w = 0 ∨ (bs.take w).length < w then [] else (bs.take w).reverse ++ swapItems w (bs.drop w)
+termination_by bs.length
+decreasing_by simp only [List.length_take, List.length_drop] at *; omega
 
-/-- observables of a tensor over a non-native byte-order array: the constructor check first, then
-    the byte-order independent answers of the array-backed tensor -/
-def arrayBEBytes (d : DType) (elems : List Nat) : R (List Nat) :=
-  match arrayBECtor d with
+/-- the elements (as bit patterns) held by the C-contiguous memory `mem` of an array of a
+    whole-byte numpy type whose dtype is little-endian / native (`be = false`) or explicitly
+    big-endian (`be = true`, e.g. `'>f4'`), and whether the holder is a real `ndarray`.
+    `Tensor.__init__` (`_core.py` 517-531) looks an ndarray's dtype up in `_NP_TYPE_TO_DATA_TYPE`,
+    whose keys are native-order dtypes, so a big-endian ndarray is rejected with `TypeError`; the
+    data behind any other array-compatible object is not checked. -/
+def arrayMemElems (d : DType) (mem : List Nat) (be nd : Bool) : R (List Nat) :=
+  if nd && be then .error "TypeError"
+  else match d.bitwidth with
+    | none => .error "TypeError"
+    | some bw =>
+      if bw < 8 then .error "sub-byte storage is modelled by Rep.array"
+      else
+        -- numpy swaps the real and the imaginary part of a complex item separately
+        let part := if d = .complex64 ∨ d = .complex128 then bw / 16 else bw / 8
+        fromBuffer (bw / 8) (if be then swapItems part mem else mem)
+
+/-- `tobytes()` of a tensor over such memory (`_core.py` 408-432, D140 fixed): the little-endian
+    items of the ELEMENTS, whatever the byte order of the memory -/
+def arrayMemBytes (d : DType) (mem : List Nat) (be nd : Bool) : R (List Nat) :=
+  match arrayMemElems d mem be nd with
   | .error e => .error e
-  | .ok _ => arrayBytes d (npItemBytes d) elems
+  | .ok elems => arrayBytes d (npItemBytes d) elems
 
 /-! ## All representations -/
 
 inductive Rep where
   /-- `_core.Tensor` over a numpy array: storage units of the array -/
   | array (d : DType) (dims : List Nat) (elems : List Nat)
-  /-- `_core.Tensor` over a numpy array whose dtype carries an explicit NON-native byte order
-      (`'>f4'`, `'>i8'`, ... e.g. loaded from a big-endian `.npy`); `elems` are the element bit
-      patterns (values), not the swapped memory -/
-  | arrayBE (d : DType) (dims : List Nat) (elems : List Nat)
+  /-- `_core.Tensor` over the memory bytes of an array(-compatible object) of a whole-byte type,
+      with the byte order of its dtype (`bigEndian`: `'>f4'`, `'>i8'`, ...) and whether it is a real
+      `ndarray` -/
+  | arrayMem (d : DType) (dims : List Nat) (mem : List Nat) (bigEndian : Bool) (ndarray : Bool)
   /-- `tensor_adapters.TorchTensor`: storage units of the torch tensor -/
   | torch (d : DType) (dims : List Nat) (elems : List Nat)
   | packed (t : Packed)
@@ -491,7 +506,7 @@ namespace Rep
 
 def dtype : Rep → R DType
   | array d _ _ => .ok d
-  | arrayBE d _ _ => match arrayBECtor d with | .ok _ => .ok d | .error e => .error e
+  | arrayMem d _ _ be nd => if nd && be then .error "TypeError" else .ok d
   | torch d _ _ => if d.torchMapped then .ok d else .error "TypeError"
   | packed t => .ok t.dtype
   | proto p => p.dtype
@@ -500,7 +515,7 @@ def dtype : Rep → R DType
 
 def shape : Rep → List Nat
   | array _ dims _ => dims
-  | arrayBE _ dims _ => dims
+  | arrayMem _ dims _ _ _ => dims
   | torch _ dims _ => dims
   | packed t => t.dims
   | proto p => p.dims
@@ -516,7 +531,7 @@ def nbytes (r : Rep) : R Nat :=
 /-- storage units of `numpy()` -/
 def numpy : Rep → R (List Nat)
   | array _ _ elems => .ok elems
-  | arrayBE d _ elems => match arrayBECtor d with | .ok _ => .ok elems | .error e => .error e
+  | arrayMem d _ mem be nd => arrayMemElems d mem be nd
   | torch d _ elems => if d.torchMapped then .ok elems else .error "TypeError"
   | packed t => t.numpy
   | proto p => p.numpy
@@ -525,7 +540,7 @@ def numpy : Rep → R (List Nat)
 
 def tobytes : Rep → R (List Nat)
   | array d _ elems => arrayBytes d (npItemBytes d) elems
-  | arrayBE d _ elems => arrayBEBytes d elems
+  | arrayMem d _ mem be nd => arrayMemBytes d mem be nd
   | torch d _ elems => torchBytes d elems
   | packed t => t.tobytes
   | proto p => p.tobytes
@@ -546,38 +561,126 @@ def tofile : Rep → R (List Nat × Bool)
   | external e file => e.tofile file
   | lazy _ _ inner => inner.tofile
   | array d dims elems => wrote (array d dims elems).tobytes
-  | arrayBE d dims elems => wrote (arrayBE d dims elems).tobytes
+  | arrayMem d dims mem be nd => wrote (arrayMem d dims mem be nd).tobytes
   | torch d dims elems => wrote (torch d dims elems).tobytes
   | packed t => wrote (packed t).tobytes
   | proto p => wrote (proto p).tobytes
+
+/-- the mechanism `tofile(file)` uses to deliver the bytes -/
+inductive Path where
+  /-- `file.write(self.tobytes())` (`TensorBase.tofile`, `TorchTensor.tofile`, the fallbacks) -/
+  | write
+  /-- `ndarray.tofile(file)` (`Tensor.tofile` / `PackedTensor.tofile` when the raw value is an
+      ndarray and the file has a descriptor, `_core.py` 608-611, 1399-1404) -/
+  | ndarray
+  /-- `os.copy_file_range` + `file.seek`, then the chunk loop (`ExternalTensor.tofile`, regular files) -/
+  | copyRange
+  /-- the 1 MiB chunk loop of `ExternalTensor.tofile` alone -/
+  | chunks
+  deriving DecidableEq, Repr
+
+/-- which mechanism is used; `regular`: the destination is a regular file with a descriptor -/
+def tofilePath : Rep → Bool → Path
+  | array _ _ _, regular => if regular then .ndarray else .write
+  | arrayMem _ _ _ _ nd, regular => if nd && regular then .ndarray else .write
+  | packed _, regular => if regular then .ndarray else .write
+  | external _ _, regular => if regular then .copyRange else .chunks
+  | lazy _ _ inner, regular => inner.tofilePath regular
+  | torch _ _ _, _ => .write
+  | proto _, _ => .write
 
 end Rep
 
 /-! ## Destination files -/
 
-/-- a binary file opened for writing: its content and the position of the next write.  In append
-    mode every write goes to the end. -/
+/-- overwrite `data` at absolute offset `off` of a file image, zero-filling a gap past the end;
+    writing nothing changes nothing -/
+def splice (img : List Nat) (off : Nat) (data : List Nat) : List Nat :=
+  if data = [] then img
+  else img.take off ++ List.replicate (off - img.length) 0 ++ data ++ img.drop (off + data.length)
+
+/-- a binary file opened for writing: its content, the position of the Python file object, whether
+    it was opened in append mode (every `write` goes to the end) and whether it is a regular file
+    with a descriptor (`False`: an in-memory buffer) -/
 structure Dest where
   img : List Nat
   pos : Nat
   append : Bool := false
+  regular : Bool := false
   deriving Repr
 
-/-- `file.write(data)` / `array.tofile(file)` / `copy_file_range` + `seek` on a regular file or a
-    `BytesIO`: overwrite at the position (zero-filling a gap past the end), advance the position.
-    Writing nothing changes nothing (a gap is only materialised by a non-empty write). -/
+/-- a positioned write that does not move the file position (`copy_file_range(offset_dst=...)`,
+    or the duplicated descriptor numpy writes through) -/
+def Dest.pwrite (f : Dest) (off : Nat) (data : List Nat) : Dest := { f with img := splice f.img off data }
+
+/-- `file.seek(p)` -/
+def Dest.seek (f : Dest) (p : Nat) : Dest := { f with pos := p }
+
+/-- `file.write(data)`: at the position (at the end in append mode), then the position is just
+    behind the data -/
 def Dest.write (f : Dest) (data : List Nat) : Dest :=
   if data = [] then f
   else
     let p := if f.append then f.img.length else f.pos
-    { f with img := f.img.take p ++ List.replicate (p - f.img.length) 0 ++ data
-                    ++ f.img.drop (p + data.length),
-             pos := p + data.length }
+    (f.pwrite p data).seek (p + data.length)
+
+/-- `for chunk in chunks: file.write(chunk)` -/
+def Dest.writeAll (f : Dest) (chunks : List (List Nat)) : Dest := chunks.foldl Dest.write f
+
+/-- the pieces `src.read(min(size, remaining))` returns -/
+def chunk (size : Nat) (data : List Nat) : List (List Nat) :=
+  if _h : size = 0 ∨ data = [] then [] else data.take size :: chunk size (data.drop size)
+termination_by data.length
+decreasing_by
+  have : data.length ≠ 0 := by
+    intro h; exact _h (Or.inr (List.eq_nil_of_length_eq_zero h))
+  simp only [List.length_drop]; omega
+
+/-- `_EXTERNAL_TENSOR_COPY_CHUNK_SIZE` -/
+def copyChunkSize : Nat := 1024 * 1024
+
+/-- `ndarray.tofile(file)`: numpy flushes the file, duplicates its descriptor, positions the
+    duplicate at `file.tell()` (an O_APPEND descriptor writes at the end anyway), writes the bytes
+    through it and finally seeks the Python file object to where the duplicate ended -/
+def Dest.ndTofile (f : Dest) (data : List Nat) : Dest :=
+  if data = [] then f.seek f.pos
+  else
+    let q := if f.append then f.img.length else f.pos
+    (f.pwrite q data).seek (q + data.length)
+
+/-- the `while copied < bytes_to_copy` loop of `ExternalTensor.tofile` (`_core.py` 952-962): in
+    each round the kernel copies up to `r` of the remaining bytes to `destination_offset + copied`
+    without moving the file position; a round that copies nothing ends the loop -/
+def copyRounds (f : Dest) (d : Nat) (data : List Nat) : List Nat → Nat → Dest × Nat
+  | [], copied => (f, copied)
+  | r :: rs, copied =>
+    if data.length ≤ copied then (f, copied)
+    else if min r (data.length - copied) = 0 then (f, copied)
+    else
+      copyRounds (f.pwrite (d + copied) ((data.drop copied).take (min r (data.length - copied)))) d data rs
+        (copied + min r (data.length - copied))
+
+/-- `ExternalTensor.tofile` into a regular file (`_core.py` 939-992): `file.flush()`,
+    `destination_offset = file.tell()`, the kernel-copy rounds (an append-mode descriptor fails
+    with EBADF before anything is copied, D44), `finally: file.seek(destination_offset + copied)`,
+    then the remaining bytes through the chunk loop -/
+def Dest.copyRange (f : Dest) (data : List Nat) (rounds : List Nat) : Dest :=
+  let d := f.pos
+  let gc := if f.append then (f, 0) else copyRounds f d data rounds 0
+  (gc.1.seek (d + gc.2)).writeAll (chunk copyChunkSize (data.drop gc.2))
+
+/-- deliver `data` through the given mechanism -/
+def Dest.deliver (f : Dest) (path : Rep.Path) (data : List Nat) : Dest :=
+  match path with
+  | .write => f.write data
+  | .ndarray => f.ndTofile data
+  | .copyRange => f.copyRange data [2 ^ 30, 2 ^ 30, 2 ^ 30, 2 ^ 30]
+  | .chunks => f.writeAll (chunk copyChunkSize data)
 
 /-- `tensor.tofile(f)` -/
 def Rep.tofileAt (r : Rep) (f : Dest) : R (Dest × Bool) :=
   match r.tofile with
-  | .ok (bs, raised) => .ok (f.write bs, raised)
+  | .ok (bs, raised) => .ok (f.deliver (r.tofilePath f.regular) bs, raised)
   | .error e => .error e
 
 /-! ## serialize / deserialize (`serde.py` 1151-1179, 2112-2146) -/
@@ -604,7 +707,7 @@ def serialize : Rep → R Proto
   | .external e _ =>
     .ok { dataType := e.dtype.code, dims := e.dims, external := some (e.offset, e.length) }
   | .array d dims elems => serializeRaw (.array d dims elems)    -- raw_data = tobytes()
-  | .arrayBE d dims elems => serializeRaw (.arrayBE d dims elems)
+  | .arrayMem d dims mem be nd => serializeRaw (.arrayMem d dims mem be nd)
   | .torch d dims elems => serializeRaw (.torch d dims elems)
   | .packed t => serializeRaw (.packed t)
   | .lazy d dims inner => serializeRaw (.lazy d dims inner)
